@@ -9,7 +9,7 @@ PedanticException".  For unsupported or malformed annotation objects the model d
 `_is_instance` does: `special k` is answered by an oracle, and the theorem quantifies over **every** oracle (whatever
 `_is_instance` returns or raises - any `Exception` - for such an object).  The statement holds at full strength since
 the repair of the string branch (`object()` against a string annotation); the generated facts it rests on are
-`cfg_catchesAll` (the last `except` arm names `Exception`) and `cfg_strGuard` (the `__base__ is None` guard).
+`cfg_catchesAll` (the last `except` arm names `Exception`) and `cfg_strBranch` (the string branch reads no attribute that can be missing: context lookup, isinstance, names of the MRO).
 (The wrapper-level clause of C08 lives with the call-layer model.)
 -/
 namespace PedVerif.Checker
@@ -34,8 +34,8 @@ theorem total (env : Env) (orc : Nat → Val → Raw) (hw : WfEnv env) (a : Ann)
   have := (exact_raw env orc hw).1 false a v hok hwf hp
   cases a <;> simp_all [checkType, Ann.okC, wrap_ok] <;> (cases conforms env _ v <;> simp)
 
-/-- the witness of the repaired region `strAnnObjectValue`: on a tree without the `__base__ is None` guard the model
-    escapes for `object()` against a string annotation; with the guard it answers `reject` -/
+/-- the repaired region `strAnnObjectValue`: `object()` against a string annotation is a verdict (the branch that read
+    `__base__.__name__` is gone; the pre-repair shape of the branch still escapes in the model, see `strAnnByName`) -/
 example : checkType envW (fun _ _ => .raisedOther) (.strAnn 7) (.inst 0) = .reject := by decide
 -- non-vacuity: an oracle that raises / answers arbitrarily is covered
 example : checkType envW (fun _ _ => .raisedOther) (.special 3) (.inst 0) = .pedErr := by decide
